@@ -315,10 +315,11 @@ class TrigTime:
                     #
                     new_vars = State.notify_var_get(state_trig_ident, {})
                     state_trig_ok = await state_trig_eval.eval(new_vars)
-                    if state_hold_false is not None and not state_check_now:
+                    if state_hold_false is not None and not (state_check_now and state_trig_ok):
                         #
                         # if state_trig_ok we wait until it is false;
                         # otherwise we consider now to be the start of the false hold time
+                        # (with state_check_now an initially true expression is handled below)
                         #
                         state_false_time = None if state_trig_ok else time.monotonic()
                     elif state_hold is not None and state_trig_ok:
